@@ -196,9 +196,10 @@ OPS = {
                    wrong={"sympy.ceil(_0)": "module sympy has no attribute 'ceil' (the function is sympy.ceiling): converting ca.ceil(x) "
                                             "dies with AttributeError although the construct is accepted and representable"}),
     "OP_FMOD": row("C fmod: result has the sign of the dividend", "sympy.sign(_0) * sympy.Mod(sympy.Abs(_0), sympy.Abs(_1))",
-                   "sympy.Mod(sympy.Abs(_0), sympy.Abs(_1)) * sympy.sign(_0)", "_0 - _1 * sympy.trunc(_0 / _1)",
-                   "_0 - sympy.trunc(_0 / _1) * _1", multi=True,
+                   "sympy.Mod(sympy.Abs(_0), sympy.Abs(_1)) * sympy.sign(_0)", multi=True,
                    wrong={"sympy.Mod(_0, _1)": "sympy.Mod takes the sign of the divisor, C fmod that of the dividend: fmod(-1, 3) = -1 but Mod(-1, 3) = 2",
+                          "_0 - _1 * sympy.trunc(_0 / _1)": "sympy.trunc is polynomial truncation trunc(f, p), not rounding toward zero: the call raises TypeError",
+                          "_0 - sympy.trunc(_0 / _1) * _1": "sympy.trunc is polynomial truncation trunc(f, p), not rounding toward zero: the call raises TypeError",
                           "_0 % _1": "sympy % is Mod (sign of the divisor): fmod(-1, 3) = -1 but (-1) % 3 = 2"}),
     "OP_FABS": row("absolute value", "sympy.Abs(_0)"),
     "OP_SIGN": unary_fn("sign", "sign with sign(0) = 0 in both libraries"),
